@@ -568,6 +568,8 @@ fn exec_bytes(v: &Value) -> Result<Value> {
 			}
 		}
 		if n <= X_LIMIT { x = class_to(c); }
+		// a value with a variant the specification's layout tables do not have is judged by the byte-level laws alone
+		if x.to_string().contains("\"k\":\"Unmodelled\"") { x = json!([]); }
 	}
 	g.insert("out_n".into(), out_n);
 	g.insert("first_diff".into(), first_diff);
